@@ -251,11 +251,13 @@ func ReportUnresolved$1 returns (err)
   props C08 C09 C10 C17
   refines utils.ResolvedCallback
   modifies *
+  captured logStream != nil
   captured ruc.ReporterConfig.Output != nil && !typeis(ruc.ReporterConfig.Output, "*bufio.Writer") && !typeis(ruc.ReporterConfig.Output, "*encoding/csv.Writer")
   defines CbOut(self) == payload(ruc.ReporterConfig.Output) && CbLog(self) == payload(logStream) && CbCC(self) == ruc.ParserConfig.CommentChar
 
 func ReportUnresolved returns (err)
   props C08 C09 C10 C17
+  requires @streams logStream != nil && dbStream != nil
   requires @sink ruc.ReporterConfig.Output != nil && !typeis(ruc.ReporterConfig.Output, "*bufio.Writer") && !typeis(ruc.ReporterConfig.Output, "*encoding/csv.Writer") && TreeInv()
   modifies *
   modifies ghost(cbLen, cbErr, cbNode, cbStop, cbRet, cbLineNo, cbLine, cbHeader, cbElems, cbNElems, scRd, scPos, privLo, evOf, accKey, accP, accN, accH, bufSink, bufSticky, sinkFailed, sinkPend, prLen, prSink, prArg, prArgs, csvLen, csvW, csvN, csvRow, tnodes, tdepth, tmax, tmapOf, jlen)
@@ -274,11 +276,13 @@ func ReportTotals$1 returns (err)
   props C08 C09 C10 C17
   refines utils.ResolvedCallback
   modifies *
+  captured logStream != nil
   captured rqc.ReporterConfig.Output != nil && !typeis(rqc.ReporterConfig.Output, "*bufio.Writer") && !typeis(rqc.ReporterConfig.Output, "*encoding/csv.Writer")
   defines CbOut(self) == payload(rqc.ReporterConfig.Output) && CbLog(self) == payload(logStream) && CbCC(self) == rqc.ParserConfig.CommentChar
 
 func ReportTotals returns (err)
   props C08 C09 C10 C17
+  requires @streams logStream != nil && dbStream != nil
   requires @sink rqc.ReporterConfig.Output != nil && !typeis(rqc.ReporterConfig.Output, "*bufio.Writer") && !typeis(rqc.ReporterConfig.Output, "*encoding/csv.Writer") && TreeInv()
   modifies *
   modifies ghost(cbLen, cbErr, cbNode, cbStop, cbRet, cbLineNo, cbLine, cbHeader, cbElems, cbNElems, scRd, scPos, privLo, evOf, accKey, accP, accN, accH, bufSink, bufSticky, sinkFailed, sinkPend, prLen, prSink, prArg, prArgs, csvLen, csvW, csvN, csvRow, tnodes, tdepth, tmax, tmapOf, jlen)
@@ -294,6 +298,7 @@ func ReportTotals returns (err)
 
 func ReportQuantity returns (err)
   props C08 C09 C10 C17
+  requires @streams logStream != nil
   requires @sink rqc.ReporterConfig.Output != nil && !typeis(rqc.ReporterConfig.Output, "*bufio.Writer") && !typeis(rqc.ReporterConfig.Output, "*encoding/csv.Writer") && TreeInv()
   modifies *
   modifies ghost(cbLen, cbErr, cbNode, cbStop, cbRet, cbLineNo, cbLine, cbHeader, cbElems, cbNElems, scRd, scPos, privLo, evOf, accKey, accP, accN, accH, bufSink, bufSticky, sinkFailed, sinkPend, prLen, prSink, prArg, prArgs, csvLen, csvW, csvN, csvRow, tnodes, tdepth, tmax, tmapOf, jlen)
@@ -308,6 +313,7 @@ func ReportQuantity returns (err)
 // the stable sort (by amount) is a function of the resolved book alone (C05)
 func ReportElement returns (err)
   props C08 C09 C10 C17 C05
+  requires @streams dbStream != nil
   requires @sink rec.ReporterConfig.Output != nil && !typeis(rec.ReporterConfig.Output, "*bufio.Writer") && !typeis(rec.ReporterConfig.Output, "*encoding/csv.Writer")
   calluse Resolve#1 any
   calluse SliceStable#1 elements
